@@ -604,8 +604,10 @@ class Differential:
       `no-failing-input-found`, with the disagreeing requests in the replay file).
     """
 
-    def __init__(self, rep, harness_cmd, env=None, spec_ops=None, name='unit', oracles=None):
+    def __init__(self, rep, harness_cmd, env=None, spec_ops=None, name='unit', oracles=None, denv=None):
         self.rep = rep
+        # denv: environment of the Lean driver (None = the check's own); a stage that studies a locale passes the same LC_ALL to both sides
+        self.denv = denv
         # op -> function(req, impl_output) -> driver request (tuple) answering OK / BAD / NOTWF:
         # the specification evaluated as a predicate on the implementation's output
         self.oracles = oracles or {}
@@ -630,7 +632,7 @@ class Differential:
     def eval3(self, reqs):
         lines = [self.line(r) for r in reqs]
         impl = run_batch(self.harness, lines, self.env)
-        model = run_batch(self.driver, ['M ' + l for l in lines])
+        model = run_batch(self.driver, ['M ' + l for l in lines], self.denv)
         sidx = [i for i, r in enumerate(reqs) if self.has_spec(r[0]) or r[0] in self.oracles]
         slines = []
         for i in sidx:
@@ -642,7 +644,7 @@ class Differential:
                     slines.append('S ' + self.line(self.oracles[r[0]](r, impl[i])))
             else:
                 slines.append('S ' + lines[i])
-        sres = run_batch(self.driver, slines)
+        sres = run_batch(self.driver, slines, self.denv)
         spec = [None] * len(reqs)
         for i, s in zip(sidx, sres):
             if s == 'NOTWF' or s == 'BADOP':
